@@ -415,6 +415,8 @@ class Problem:
         self.f = FAMILIES[cfg['family']]
         self.calls = 0
         self.arg_log = []
+        import threading
+        self._lock = threading.Lock()
 
     # the prior: identity-like affine map so that the likelihood families stay on the unit cube
     def prior_fn(self, u):
@@ -427,8 +429,12 @@ class Problem:
         return np.array(u)
 
     def like_scalar(self, arg):
-        self.calls += 1
+        with self._lock:
+            self.calls += 1
         x = self._unpack(arg)
+        if self.cfg.get('pool_l') == 'executor':
+            import time as _t
+            _t.sleep(0.0004 * (int(abs(float(x[0])) * 1e6) % 4))      # point-dependent run time
         ll = self.f(x)
         b = blob_of(self.cfg['blob'], x, ll)
         if self.cfg.get('lik_inplace') and isinstance(arg, np.ndarray):
@@ -477,7 +483,11 @@ def build_sampler(nautilus, cfg, tr, prob, filepath=None, resume=False):
         kw['periodic'] = np.array(cfg['periodic'])
     if cfg.get('pool_s'):
         kw['pool'] = (None, FakePool(cfg['pool_s'], cfg['seed'], pickle_func=True))
-    if cfg.get('pool_l'):
+    if cfg.get('pool_l') == 'executor':
+        # a user-supplied concurrent.futures executor: results must come back in submission order whatever the run times
+        from concurrent.futures import ThreadPoolExecutor
+        kw['pool'] = (ThreadPoolExecutor(max_workers=3), kw.get('pool', (None, None))[1])
+    elif cfg.get('pool_l'):
         kw['pool'] = (FakePool(cfg['pool_l'], cfg['seed'] + 1), kw.get('pool', (None, None))[1])
     if cfg.get('neural_network_kwargs'):
         kw['neural_network_kwargs'] = cfg['neural_network_kwargs']
@@ -505,7 +515,7 @@ def make_config(rng, i, tier='quick', force=None):
                blob=str(rng.choice(['none', 'float', 'int', 'vec3', 'two', 'vec1'])),
                seed=int(rng.integers(1, 2 ** 31)), vectorized=bool(rng.random() < 0.3),
                prior_object=bool(rng.random() < 0.25), prior_inplace=bool(rng.random() < 0.3),
-               pool_s=3 if rng.random() < 0.2 else None, pool_l=2 if rng.random() < 0.2 else None,
+               pool_s=3 if rng.random() < 0.2 else None, pool_l=(lambda r: 2 if r < 0.14 else ('executor' if r < 0.24 else None))(rng.random()),
                periodic=[0] if fam == 'periodic' else ([0, 1] if rng.random() < 0.1 else None),
                n_shell=int(rng.choice([1, 5, 30])), n_eff=int(rng.choice([100, 300, 600])),
                discard_at_end=bool(rng.random() < 0.5), toggles=int(rng.choice([0, 0, 1, 3])), resumes=int(rng.choice([0, 0, 1, 2])),
